@@ -57,7 +57,6 @@ MIN_NONTRIVIAL = {"quick": 2, "thorough": 10}
 
 PASS = {"default": 0.05, "nldrude": 0.10, "nldrude_d2": 0.15}
 CLEAR = {"default": 0.25, "nldrude": 0.35, "nldrude_d2": 0.35}
-D2_SPREAD = 0.10      # largest difference between the plain-sum and the tetrahedron f'' results for which that form is judged
 GUARD = 0.3
 CONV = 0.06      # sum of the two calculators' changes between the coarse and the judged grid that still counts as converged
 
@@ -128,20 +127,21 @@ def build_model(case):
 D2_REFINE = 4      # the plain-sum f'' form bins the band energies on the Fermi grid: it gets a 4x finer grid (same end points)
 
 
-def calculators(case, Ef, smoother):
+def calculators(case, Ef, smoother, which="main"):
     from wannierberri.calculators import static
     from wannierberri.smoother import FermiDiracSmoother
-    Ef_fine = np.linspace(Ef[0], Ef[-1], D2_REFINE * (len(Ef) - 1) + 1)
     kw = dict(Efermi=Ef, smoother=smoother, use_factor=bool(case["use_factor"]), tetra=True)
+    if which == "d2":
+        Ef_fine = np.linspace(Ef[0], Ef[-1], D2_REFINE * (len(Ef) - 1) + 1)
+        kw.update(tetra=False, Efermi=Ef_fine, smoother=FermiDiracSmoother(Ef_fine, T_Kelvin=float(case["T"])))
+        return dict(nldrude_d2=static.NLDrude_Fermider2(**kw))
     it = dict(kwargs_formula={"external_terms": False})
-    kw_nt = dict(kw, tetra=False, Efermi=Ef_fine, smoother=FermiDiracSmoother(Ef_fine, T_Kelvin=float(case["T"])))
     return dict(
         ohmic_sea=static.Ohmic_FermiSea(**kw), ohmic_surf=static.Ohmic_FermiSurf(**kw),
         berrydipole_sea=static.BerryDipole_FermiSea(**kw, **it), berrydipole_surf=static.BerryDipole_FermiSurf(**kw, **it),
         gme_spin_sea=static.GME_spin_FermiSea(**kw), gme_spin_surf=static.GME_spin_FermiSurf(**kw),
         gme_orb_sea=static.GME_orb_FermiSea(**kw, **it), gme_orb_surf=static.GME_orb_FermiSurf(**kw, **it),
-        nldrude_sea=static.NLDrude_FermiSea(**kw), nldrude_surf=static.NLDrude_FermiSurf(**kw),
-        nldrude_d2=static.NLDrude_Fermider2(**kw_nt), nldrude_d2t=static.NLDrude_Fermider2(**kw))
+        nldrude_sea=static.NLDrude_FermiSea(**kw), nldrude_surf=static.NLDrude_FermiSurf(**kw))
 
 
 # (name, sea key, partner key, transposition that must be distinguishable or None for symmetric tensors)
@@ -158,10 +158,10 @@ def rel(a, b):
     return maxabs(a - b) / s if s > 0 else 0.0
 
 
-def run_once(system, case, Ef, smoother, NKdiv, NKFFT, scratch, tag):
+def run_once(system, case, Ef, smoother, NKdiv, NKFFT, scratch, tag, which="main"):
     import wannierberri as wb
     grid = wb.Grid(system, NKdiv=np.array(NKdiv), NKFFT=np.array(NKFFT), use_symmetry=False)
-    res = wb.run(system, grid=grid, calculators=calculators(case, Ef, smoother), parallel=False, adpt_num_iter=0,
+    res = wb.run(system, grid=grid, calculators=calculators(case, Ef, smoother, which), parallel=False, adpt_num_iter=0,
                  use_irred_kpt=False, symmetrize=False, fout_name=os.path.join(scratch, "res_" + tag), suffix="",
                  restart=False, file_Klist_path=os.path.join(scratch, "klist_" + tag), print_progress_step_time=1e9)
     data = {}
@@ -193,6 +193,10 @@ class Evaluation:
         self.grids = GRIDS[dim][case["grid"]]
         with scratch_dir() as d:
             self.data = run_once(self.system, case, self.Ef, self.smoother, self.grids[0], self.grids[1], d, "fine")
+            if dim == 2:
+                # the f'' form (plain sum, see module docstring) on a twice finer k-grid; not judged in 3D
+                div2 = [2 * x if x > 1 else 1 for x in self.grids[0]]
+                self.data.update(run_once(self.system, case, self.Ef, self.smoother, div2, self.grids[1], d, "d2", "d2"))
         judged = np.where((self.Ef >= lo) & (self.Ef <= hi))[0]
         if len(judged) < 20:
             raise Inconclusive("fewer than 20 Fermi levels inside the band range")
@@ -200,6 +204,8 @@ class Evaluation:
         self.info = dict(gap=gap, spacing=spacing, lo=lo, hi=hi, kT=kT, njudged=len(judged), NE1=int(self.smoother.NE1))
         self.out = {}
         for name, ka, kb, tr in PAIRS:
+            if kb not in self.data:
+                continue
             A = self.data[ka][self.sl]
             B = self.data[kb][self.sl]
             if name == "nldrude_d2" and not case["use_factor"]:
@@ -208,9 +214,6 @@ class Evaluation:
                 raise Violation(f"{name}:shape", f"{ka} {A.shape} vs {kb} {B.shape}")
             self.out[name] = dict(rel=rel(A, B), flip=rel(A, -B), transp=(rel(A, np.transpose(B, tr)) if tr else None),
                                   scale=max(maxabs(A), maxabs(B)))
-        # the f'' form converges much more slowly than the others (plain sum: needs k-spacing*velocity << kT; tetrahedron:
-        # discontinuous second-derivative weights); it is judged only where its two discretisations agree with each other
-        self.d2_spread = rel(self.data["nldrude_d2"][self.sl], self.data["nldrude_d2t"][self.sl])
         self._conv = None
 
     def conv(self, name):
@@ -218,6 +221,9 @@ class Evaluation:
         if self._conv is None:
             with scratch_dir() as d:
                 coarse = run_once(self.system, self.case, self.Ef, self.smoother, self.grids[2], self.grids[3], d, "coarse")
+                if "nldrude_d2" in self.data:
+                    coarse.update(run_once(self.system, self.case, self.Ef, self.smoother, self.grids[0], self.grids[1], d,
+                                           "d2c", "d2"))
             self._conv = {k: rel(self.data[k][self.sl], coarse[k][self.sl]) for k in self.data}
         ka, kb = [(a, b) for n, a, b, _ in PAIRS if n == name][0]
         return self._conv[ka] + self._conv[kb]
@@ -227,8 +233,10 @@ def check(case):
     ev = Evaluation(case)
     out, info = ev.out, ev.info
     margin, unconverged, blind = [], [], []
-    d2_status = "d2:agrees"
+    d2_status = "d2:agrees" if "nldrude_d2" in out else "d2:not-judged-in-3D"
     for name, _, _, tr in PAIRS:
+        if name not in out:
+            continue
         r = out[name]
         p_ok = PASS.get(name, PASS["default"])
         p_clear = CLEAR.get(name, CLEAR["default"])
@@ -236,9 +244,6 @@ def check(case):
             raise Violation(f"{name}:not-finite", "result contains NaN/inf")
         if r["scale"] == 0:
             blind.append(name)
-            continue
-        if name == "nldrude_d2" and not ev.d2_spread <= D2_SPREAD:
-            d2_status = "d2:unresolved"
             continue
         if r["rel"] > p_clear:
             cv = ev.conv(name)
